@@ -399,6 +399,10 @@ func (s *ccSys) canon() string {
 	for id := range s.db {
 		parts = append(parts, fmt.Sprintf("row%d", id))
 	}
+	for _, k := range s.s.Keys() {
+		v, _ := s.s.Get(k)
+		parts = append(parts, fmt.Sprintf("real:%s=%s/%v", k, v, s.s.TTL(k)))
+	}
 	sort.Strings(parts)
 	return fmt.Sprintf("down=%v|draw=%g|%v", s.down, s.draw, parts)
 }
